@@ -220,6 +220,35 @@ fn main() {
                 let cases = streams::deep_none_cases(&mut rng, if o.tier == "thorough" { 60000 } else { 6000 });
                 run_rs_stream(&o, &mut rep, "deep-none", "a None that arises deep inside (missing field, index out of range, step into None, none literal, a field / index of the `facts` root when the whole input is None) under 1..5 enclosing operators, each applied with the None-valued expression in either operand position and an arbitrary pool value (including ones that alone would be a type error) in the other; the expected outcome (None / false / true) is computed from the property's rule and checked on the implementation alone, then against the model", false, cases, "full");
             }
+            if o.prop == "C04" {
+                // a None that is Rust's: Option::None / unit fields of a serializable input.  (i) the rules over the value
+                // such an input denotes, against the model; (ii) RuleSet::evaluate(&T) of the input itself gives the same
+                let cases = streams::none_from_input_cases();
+                let (input, denoted) = streams::none_facts();
+                let mut sr = StreamReport::new("none-from-input-evaluate", "the same rulesets through RuleSet::evaluate(&T) with T a struct whose absent data are Option::None fields (top level, nested), a unit field and a None list item: every outcome equals the one over the value the input denotes", true);
+                for c in &cases {
+                    sr.count(&c.tag, true);
+                    let shared = std::sync::Arc::new(evalrun::Shared::default());
+                    let r = std::panic::catch_unwind(std::panic::AssertUnwindSafe(|| {
+                        let rs = evalrun::build_ruleset(&c.rules, &c.env, &shared).map_err(|e| format!("BUILD {e}"))?;
+                        let show = |os: Vec<reval::ruleset::Outcome>| os.iter().map(|o| codec::enc_result(&o.value)).collect::<Vec<_>>();
+                        let a = evalrun::block_on(rs.evaluate(&input)).map(show).map_err(|e| format!("EVALERR {e}"))?;
+                        let b = evalrun::block_on(rs.evaluate_value(&denoted)).map(show).map_err(|e| format!("EVALERR {e}"))?;
+                        Ok::<_, String>((a, b))
+                    }));
+                    let (a, b) = match r {
+                        Ok(Ok(x)) => x,
+                        Ok(Err(e)) => (vec![e], vec![]),
+                        Err(p) => (vec![format!("PANIC {}", evalrun::panic_msg(p))], vec![]),
+                    };
+                    if a != b {
+                        let j = (0..a.len().max(b.len())).find(|j| a.get(*j) != b.get(*j)).unwrap_or(0);
+                        rep.add_finding(report::Finding { kind: "impl-violates-property".into(), stream: "none-from-input-evaluate".into(), case: format!("nonefacts\t{}", c.tag), human: format!("rule `{}` over the input struct {{ nothing: None, unit: (), inner: {{ nothing: None, v: 1 }}, list: [None, Some(1)], n: 5 }}", c.rules.get(j).map(|e| e.to_string()).unwrap_or_default()), impl_out: a.get(j).cloned().unwrap_or_default(), model_out: b.get(j).cloned().unwrap_or_default(), predicate: "an absent datum of the input (Option::None, unit) is None: the operators treat it as the property says for None".into(), signature: format!("C04 none-from-input {}", c.rules.get(j).map(|e| e.to_string().split(' ').next().unwrap_or("").to_string()).unwrap_or_default()) });
+                    }
+                }
+                rep.streams.push(sr);
+                run_rs_stream(&o, &mut rep, "none-from-input", "every unary / binary / lazy operator, if, and access step with a None operand that is a field of the input (bare name, unit field, nested field, `facts.` path, list item) on either side of 7 other operands; 40 rules per ruleset", true, cases, "full");
+            }
             if o.prop == "C02" || o.prop == "C03" {
                 run_rs_stream(&o, &mut rep, "compositions", "two operators stacked — every unary over every unary operator, every binary / lazy operator over a unary one on either side, every unary over a binary one — over the coercion pool (3 values per type, None) with 5 second operands: for C03 the type-error-ness of every outcome, for C02 the whole outcome", true, streams::composition_cases(), if o.prop == "C03" { "typeerr" } else { "full" });
             }
